@@ -5,6 +5,7 @@
    proofs are in Proofs/ExecProofs.v. *)
 From Coq Require Import ZArith List Bool.
 From NQ Require Import Exec.State Exec.Sem Exec.Exec Proofs.ExecProofs.
+From NQ Require Exec.HwSem Exec.HwExec Proofs.HwProofs.
 Import ListNotations.
 Open Scope Z_scope.
 
@@ -243,6 +244,70 @@ Example C04_fault_stops_example :
   Exec.run p (init_state 1) 50 = Sem.run p (init_state 1) 50.
 Proof. vm_compute. repeat split; reflexivity. Qed.
 
+(* ---------------------------------------------------------------- with the configuration
+   State.config carries the flag of netqasm.runtime.settings.set_is_using_hardware.  With the
+   flag off HwSem.hstep / HwExec.hexecute_command ARE Sem.step / Exec.execute_command; with the
+   flag on every register write, array-entry write (value and index), array address and value
+   returned to the host must fit 32 bits (two's complement), otherwise the instruction faults
+   with FOverflow at its line and changes nothing (HwSem.hw_step prescribes where among the
+   other faults of the instruction the check comes).  The refinement holds for EVERY
+   configuration, in particular with the flag ON. *)
+Theorem C04_hw_exec_refines_sem : forall cfg prog st fuel,
+  HwSem.hdefined_domain cfg prog st -> HwExec.hrun cfg prog st fuel = HwSem.hrun cfg prog st fuel.
+Proof. exact HwProofs.hexec_refines_hsem. Qed.
+
+Theorem C04_hw_step_refines : forall i st pc,
+  HwSem.hw_step i st pc <> Stop (Unspec pc) ->
+  to_sres (HwExec.hw_execute_command i st pc) pc = HwSem.hw_step i st pc.
+Proof. exact HwProofs.hw_step_refines. Qed.
+
+Theorem C04_hw_run_many : forall cfg subs st fuel,
+  HwSem.hdefined_many cfg subs st fuel -> HwExec.hrun_many cfg subs st fuel = HwSem.hrun_many cfg subs st fuel.
+Proof. exact HwProofs.hrun_many_refines. Qed.
+
+(* flag off = the semantics of C04_exec_refines_sem *)
+Theorem C04_hw_off : forall fuel prog st pc,
+  HwSem.hrun_from cfg_sim prog st pc fuel = Sem.run_from prog st pc fuel /\
+  HwExec.hrun_from cfg_sim prog st pc fuel = Exec.run_from prog st pc fuel.
+Proof. intros. split; [apply HwProofs.hrun_sim_is_sem|apply HwProofs.hrun_sim_is_exec]. Qed.
+
+(* flag on only ADDS overflow faults: an instruction that does not overflow (and is not open)
+   does exactly what it does in simulation *)
+Theorem C04_hw_conservative : forall i st pc,
+  HwSem.hw_step i st pc <> Stop (Fault FOverflow pc) -> HwSem.hw_step i st pc <> Stop (Unspec pc) ->
+  HwSem.hw_step i st pc = step i st pc.
+Proof. exact HwProofs.hw_conservative. Qed.
+
+(* an overflow ends the run at that instruction, names its line, state and pc unchanged *)
+Theorem C04_hw_overflow_stops : forall prog st pc fuel i,
+  0 <= pc -> nth_error prog (Z.to_nat pc) = Some i ->
+  HwSem.hw_step i st pc = Stop (Fault FOverflow pc) ->
+  HwExec.hrun_from cfg_hardware prog st pc (S fuel) = (st, pc, Fault FOverflow pc).
+Proof. exact HwProofs.hw_overflow_stops. Qed.
+
+(* 2^31-1 + 1: overflow at line 2 in hardware, a plain value in simulation; store of the
+   boundary values is fine; undef with a huge index is an index fault, not an overflow *)
+Definition hw_demo : list instr :=
+  [ ISet (R 0) 2147483647; ISet (R 1) 1; IClassical (COp OAdd (R 2) (R 0) (R 1)); ISet (R 3) 7 ].
+Definition hw_demo2 : list instr :=
+  [ ISet (R 0) 2; IArray (R 0) 2147483647; ISet (R 1) (-2147483648); IStore (R 1) 2147483647 (OImm 1);
+    IRetArr 2147483647; IUndef 2147483647 (OImm 4294967296) ].
+
+Example C04_hw_demo :
+  HwSem.hdefined_domain cfg_hardware hw_demo (init_state 0) /\
+  HwExec.hrun cfg_hardware hw_demo (init_state 0) 10 = HwSem.hrun cfg_hardware hw_demo (init_state 0) 10 /\
+  (let '(st, pc, o) := HwExec.hrun cfg_hardware hw_demo (init_state 0) 10 in
+   o = Fault FOverflow 2 /\ pc = 2 /\ rd st (R 2) = None /\ rd st (R 3) = None) /\
+  (let '(st, pc, o) := HwExec.hrun cfg_sim hw_demo (init_state 0) 10 in
+   o = Halt /\ rd st (R 2) = Some 2147483648 /\ rd st (R 3) = Some 7) /\
+  (let '(st, pc, o) := HwExec.hrun cfg_hardware hw_demo2 (init_state 0) 10 in
+   o = Fault FIndex 5 /\ shm_arrays st = [(2147483647, [None; Some (-2147483648)])]) /\
+  HwExec.hrun cfg_hardware hw_demo2 (init_state 0) 10 = HwSem.hrun cfg_hardware hw_demo2 (init_state 0) 10.
+Proof.
+  split; [apply (HwProofs.hdefined_from_by_run cfg_hardware hw_demo (init_state 0) 0 10); vm_compute; reflexivity|].
+  vm_compute. repeat split; reflexivity.
+Qed.
+
 Print Assumptions C04_exec_refines_sem.
 Print Assumptions C04_run_many.
 Print Assumptions C04_step_refines.
@@ -262,3 +327,6 @@ Print Assumptions C04_fault_stops.
 Print Assumptions C04_qalloc_bookkeeping.
 Print Assumptions C04_qfree_bookkeeping.
 Print Assumptions C04_demo_in_domain.
+Print Assumptions C04_hw_exec_refines_sem.
+Print Assumptions C04_hw_conservative.
+Print Assumptions C04_hw_overflow_stops.
